@@ -143,6 +143,10 @@ def compile_unit(unit, scratch, cover=False):
                                   '-I' + os.path.join(REPO, 'src/lib')]
     for d in unit.get('defines', []):
         cmd.append('-D' + d)
+    # repo-relative include directories (needed when a loop-patched scratch copy of a file includes a
+    # header that sits next to the real file, e.g. bundled/libsha.h)
+    for d in unit.get('include_dirs', []):
+        cmd.append('-I' + os.path.join(REPO, d))
     if cover:
         cmd.append('-DVERIF_COVER')
     cmd += ['--function', unit['harness'], os.path.join(VERIF, unit['file']), '-o', out]
